@@ -170,6 +170,29 @@ class Gen:
                     return n
         return None
 
+    def opening_helper(self, call, _seen=None):
+        """the FunctionDef of a plain function of las / reader / writer called as helper(..), self.helper(..) or module.helper(..)
+        whose body contains (directly, or through such helpers again) an open() call; None otherwise"""
+        f = call.func
+        name = f.id if isinstance(f, ast.Name) else f.attr if isinstance(f, ast.Attribute) else None
+        if name is None or name in ("open", "close", "read", "write", "to_csv"):
+            return None
+        seen = _seen if _seen is not None else set()
+        if name in seen:
+            return None
+        seen.add(name)
+        for mod in ("las", "reader", "writer"):
+            try:
+                tree = self.tr.tree(mod)
+            except Exception:
+                continue
+            for n in ast.walk(tree):
+                if isinstance(n, ast.FunctionDef) and n.name == name and not n.decorator_list:
+                    for c in ast.walk(n):
+                        if isinstance(c, ast.Call) and (callname(c) in OPEN_CALLS or (c is not call and self.opening_helper(c, seen) is not None)):
+                            return n
+        return None
+
     def handle_target(self, scope, t):
         if isinstance(t, ast.Name):
             return t.id
@@ -184,11 +207,19 @@ class Gen:
             if target is None:
                 raise Unsupported("anonymous open() whose handle is not bound to a name")
             return "(.openV %d)" % self.tr.var(scope, target)
-        if nm in INLINE and scope.depth < MAX_DEPTH:
-            mod, fname = INLINE[nm]
-            fn = self.tr.find(mod, fname)
+        auto = None
+        if nm not in INLINE and scope.depth < MAX_DEPTH:
+            auto = self.opening_helper(call)       # any other lasio function that (transitively) opens a file is inlined too
+        if (nm in INLINE or auto is not None) and scope.depth < MAX_DEPTH:
+            if auto is not None:
+                fn = auto
+            else:
+                mod, fname = INLINE[nm]
+                fn = self.tr.find(mod, fname)
             bind = {}
             params = [a.arg for a in fn.args.args]
+            if params and params[0] == "self" and isinstance(call.func, ast.Attribute):
+                params = params[1:]
             for p, a in zip(params, call.args):
                 if isinstance(a, ast.Name):
                     bind[p] = scope.bind.get(a.id, (scope.uid, a.id))
